@@ -1,8 +1,71 @@
-"""Which instances decide which property, per tier."""
+"""Which instances decide which property, per tier.  Entries are instance names of catalogue.py, or
+(name, options) with options: cap (behaviours replayed), timeout, simulate.
+`vacuity`: (instance, switches to turn off): the model of the pinned tree must violate the property
+there - the standing proof that the check is not vacuous."""
+
 PLAN = {
     "C01": dict(
-        quick=["lit_finish_exit", "lit_foreign_finish", "lit_child_other", "lit_local_scope", "par_small"],
+        quick=["lit_finish_exit", "lit_foreign_finish", "lit_child_other", "lit_local_scope", "par4", ("over5_d", dict(cap=800))],
+        thorough=["lit_finish_exit", "lit_foreign_finish", "lit_child_other", "lit_local_scope", "lit_attach_other", "par4", "par5",
+                  "over5_d", "tree5", ("sim_par3", dict(cap=6000))],
         vacuity=[("lit_finish_exit", ["FixRecv"])],
     ),
+    "C02": dict(
+        quick=[("tree4", dict(cap=2500))],
+        thorough=["tree4", "tree5", ("tree6", dict(cap=20000, timeout=2400)), ("sim_tree", dict(cap=6000))],
+    ),
+    "C03": dict(
+        quick=["lit_finish_exit_c", "lit_foreign_finish_c", "lit_child_other_c", "par4_c", ("att4_c", dict(cap=800))],
+        thorough=["lit_finish_exit_c", "lit_foreign_finish_c", "lit_child_other_c", "par4_c", "par5_c", "att4_c", ("sim_par3_c", dict(cap=6000))],
+        vacuity=[("lit_finish_exit_c", ["FixRecv"])],
+    ),
+    "C04": dict(
+        quick=["lit_overflow_cancel", "cancel4_c", "cancel4_d", ("over5_c", dict(cap=1200))],
+        thorough=["lit_overflow_cancel", "cancel4_c", "cancel5_c", "cancel4_d", "over5_c", "over6_c"],
+        vacuity=[("lit_overflow_cancel", ["FixFifo"]), ("cancel4_d", ["FixCancelDefault"])],
+    ),
+    "C05": dict(
+        quick=[("smp4", dict(cap=2500))],
+        thorough=["smp4", ("smp5", dict(cap=20000, timeout=2400))],
+    ),
+    "C06": dict(
+        quick=[("att4", dict(cap=1500)), ("att4_c", dict(cap=800)), ("lit_attach_other", dict(cap=800)), ("twin4", dict(cap=600))],
+        thorough=["att4", "att5", "att4_c", "lit_attach_other", "twin4", ("sim_att", dict(cap=6000))],
+        vacuity=[("cancel4_d", ["FixCancelDefault"])],
+    ),
+    "C07": dict(
+        quick=["hostile4", "notready4", ("over5_d", dict(cap=500))],
+        thorough=["hostile4", "hostile5", "notready4", "over5_d", "over5_c"],
+        vacuity=[("hostile4", ["FixEmptyToken"]), ("hostile4", ["FixReentrant"]), ("hostile4", ["FixStackFull"])],
+    ),
+    "C08": dict(
+        quick=["lit_finish_exit", "lit_foreign_finish", "par4", ("over5_d", dict(cap=800)), ("cancel4_c", dict(cap=400))],
+        thorough=["lit_finish_exit", "lit_foreign_finish", "par4", "par5", "over5_d", "cancel4_c", ("sim_par3", dict(cap=6000))],
+        vacuity=[("lit_finish_exit", ["FixRecv"]), ("over5_d", ["FixFifo"])],
+    ),
+    "C09": dict(
+        quick=[("over5_d", dict(cap=1000)), ("over5_c", dict(cap=1000)), ("lit_overflow_finish", dict(cap=600)), ("lit_overflow_finish_c", dict(cap=600)),
+               ("qlimit5", dict(cap=800))],
+        thorough=["over5_d", "over5_c", "over6_c", "lit_overflow_finish", "lit_overflow_finish_c", "lit_overflow_cancel", "qlimit5"],
+        vacuity=[("over5_d", ["FixForceStart"]), ("over5_d", ["FixFifo"])],
+    ),
+    "C10": dict(
+        quick=[("scope5", dict(cap=2500))],
+        thorough=["scope5", ("scope6", dict(cap=20000))],
+    ),
+    "C11": dict(
+        quick=[("ctx4", dict(cap=2500))],
+        thorough=["ctx4", ("ctx5", dict(cap=20000, timeout=2400))],
+        vacuity=[("ctx4", ["FixEmptyToken"])],
+    ),
+    "C17": dict(
+        quick=[("lc5", dict(cap=2000))],
+        thorough=["lc5", ("lc6", dict(cap=20000, timeout=2400))],
+    ),
 }
+PLAN["C18"] = dict(
+    level="exploration",
+    quick=[("time_tree4", dict(cap=700)), ("time_lc5", dict(cap=500)), ("time_att4", dict(cap=500))],
+    thorough=[("time_tree4", dict(cap=2700)), ("time_lc5", dict(cap=4000)), ("time_att4", dict(cap=2200))],
+)
 SIDE = {}
